@@ -48,7 +48,7 @@ def summarize(ops, limit=12):
     return out
 
 
-def make_run_shard(profile, classify, hooks=(), bulk_share=0.0, max_ops_quick=25, max_ops_thorough=60, pre=(), post=()):
+def make_run_shard(profile, classify, hooks=(), bulk_share=0.0, max_ops_quick=25, max_ops_thorough=60, pre=(), post=(), configs=None):
     def run_shard(spec, ctx):
         acc = ctx.acc
         max_ops = spec.get("max_ops", max_ops_quick)
@@ -57,7 +57,7 @@ def make_run_shard(profile, classify, hooks=(), bulk_share=0.0, max_ops_quick=25
             strat = gen_ops.bulk_history()
 
         def check(ops):
-            ls = run_history(ops, ctx, hooks, pre=pre, post=post)
+            ls = run_history(ops, ctx, hooks, configs=configs, pre=pre, post=post)
             acc.cls("histories")
             acc.cls("ops", len(ops))
             for f in ls.flags:
@@ -71,18 +71,18 @@ def make_run_shard(profile, classify, hooks=(), bulk_share=0.0, max_ops_quick=25
         # delta-debugging pass over the operation list instead (each candidate is re-executed from scratch).
         v = core.hyp_search(check, strat, ctx.seed, spec["n"], shrink=False)
         if v is not None:
-            raise minimize(v, ctx, hooks, pre=pre, post=post)
+            raise minimize(v, ctx, hooks, pre=pre, post=post, configs=configs)
 
     return run_shard
 
 
-def minimize(v, ctx, hooks, budget=120, pre=(), post=()):
+def minimize(v, ctx, hooks, budget=120, pre=(), post=(), configs=None):
     ops = list(v.case["ops"])
     best = v
 
     def fails(cand):
         try:
-            run_history(cand, core.Ctx("minimize", 0, ctx.known, ctx.scratch, 0), hooks, pre=pre, post=post)
+            run_history(cand, core.Ctx("minimize", 0, ctx.known, ctx.scratch, 0), hooks, configs=configs, pre=pre, post=post)
         except core.Violation as w:
             return w if w.sub == v.sub else None
         except Exception:
@@ -109,9 +109,9 @@ def minimize(v, ctx, hooks, budget=120, pre=(), post=()):
     return best
 
 
-def make_replay(hooks=()):
+def make_replay(hooks=(), configs=None):
     def replay(sub, case, ctx):
-        run_history(case["ops"], ctx, hooks)
+        run_history(case["ops"], ctx, hooks, configs=configs)
 
     return replay
 
